@@ -41,7 +41,8 @@ def record_pure(K: int, m: int, n_steps: int, swing: float) -> dict:
         tol = min(1e-3 + 1e-4 * (i + 1) * max(1, m // K + 1), 0.05)
         (l, g1), (r, g2) = to_ticks(ph[0], K, tol), to_ticks(ph[1], K, tol)
         cl = lambda x: int(max(-10 ** 6, min(10 ** 6, round(float(x) * 1e4)))) if np.isfinite(x) else 10 ** 6      # TLC integers are 32-bit
-        evs.append(dict(l=max(-10 ** 6, min(10 ** 6, l)), r=max(-10 ** 6, min(10 ** 6, r)), hl=cl(h[0]), hr=cl(h[1]), on_grid=bool(g1 and g2)))
+        evs.append(dict(l=max(-10 ** 6, min(10 ** 6, l)), r=max(-10 ** 6, min(10 ** 6, r)), hl=cl(h[0]), hr=cl(h[1]), on_grid=bool(g1 and g2),
+                        htol=2 + int(math.ceil(tol * 3.0 / K * 1e4))))
     return {"K": K, "m": m, "init": {"l": l0, "r": r0}, "events": evs, "atoms": {"InitialPhasesAreZeroAndPi": bool(ok_l and ok_r and l0 == 0 and r0 == K // 2)}}
 
 
